@@ -367,7 +367,7 @@ def run(ctx):
                             f.write(line if line.endswith("\n") else line + "\n")
             runs.append(dict(sub="corpus", replay=cf))
         if quick:
-            runs.append(dict(sub="fresh", n=400, nb=8, ne=8, engines="mem"))
+            runs.append(dict(sub="fresh", n=350, nb=6, ne=6, engines="mem"))
         else:
             runs.append(dict(sub="fresh", n=4500, nb=120, ne=60, engines="mem,pebble,rocksdb"))
             runs.append(dict(sub="fresh-pebble-live", n=0, nb=30, ne=15, engines="pebble"))
